@@ -414,6 +414,48 @@ pub fn rows_c09(args: &[String]) -> i32 {
             out.put(&json!({"t": "err", "code": e.get_code(), "msg": bytes_json(e.get_message()), "ext": bytes_json(ext), "text": bytes_json(&text)}));
         }
     }
+    // finish() between the data() calls of one unit (`for v in vals { unit.data(v).finish()?; }`): the separators stay
+    {
+        use scpi::parser::response::Formatter;
+        let vals: Vec<i32> = vec![1, -22, 333, 4];
+        let mut buf: Vec<u8> = Vec::new();
+        let fin = catch(std::panic::AssertUnwindSafe(|| {
+            let mut u = buf.response_unit().unwrap();
+            let mut r = Ok(());
+            for v in &vals {
+                r = u.data(*v).finish();
+            }
+            r
+        }));
+        let j: Vec<Value> = vals.iter().map(|v| { let (neg, d) = digits(&format!("{v}")); json!({"neg": neg, "d": d}) }).collect();
+        out.put(&json!({"t": "list", "vals": j, "text": bytes_json(if matches!(fin, Ok(Ok(()))) { &buf } else { b"<failed>" }), "via": "finish() after every data()"}));
+    }
+    // a derived enum in which one variant has two mnemonics (an alias): every variant still answers with a mnemonic of its own
+    {
+        use scpi::option::ScpiEnum;
+        #[derive(Clone, Copy, PartialEq, Debug, scpi_derive::ScpiEnum)]
+        enum Alias {
+            #[scpi(mnemonic = b"VOLTage")]
+            #[scpi(mnemonic = b"POTential")]
+            Volt,
+            #[scpi(mnemonic = b"CURRent")]
+            Curr,
+            #[scpi(mnemonic = b"RESistance2")]
+            #[scpi(mnemonic = b"OHM")]
+            Res,
+            #[scpi(mnemonic = b"POWer")]
+            Pow,
+        }
+        let all: [(Alias, &[&[u8]]); 4] = [(Alias::Volt, &[b"VOLTage", b"POTential"]), (Alias::Curr, &[b"CURRent"]), (Alias::Res, &[b"RESistance2", b"OHM"]), (Alias::Pow, &[b"POWer"])];
+        for (v, own) in all.iter() {
+            let text = fmt(v).unwrap_or_else(|| b"<failed>".to_vec());
+            let others: Vec<Value> = all.iter().filter(|(w, _)| w != v).flat_map(|(_, m)| m.iter().map(|x| bytes_json(x))).collect();
+            let rep = catch(std::panic::AssertUnwindSafe(|| Alias::from_mnemonic(&text))).ok().flatten() == Some(*v);
+            // the emitted mnemonic must match one of the variant's own mnemonics: judged against the one it matches best (first that matches, else the first)
+            let mn = own.iter().find(|m| scpi::parser::mnemonic_match(m, &text)).unwrap_or(&own[0]);
+            out.put(&json!({"t": "enum", "enum": "Alias", "mn": bytes_json(mn), "others": others, "text": bytes_json(&text), "rep": rep, "own": own.contains(&v.mnemonic())}));
+        }
+    }
     // one response unit with 300 separate data() calls (the separator does not depend on how many came before)
     {
         use scpi::parser::response::Formatter;
